@@ -1166,7 +1166,12 @@ class OFConnection (object):
         io_worker.consume_receive_buf(message_length)
         continue
 
-      new_offset, msg_obj = self.unpackers[ofp_type](message, 0)
+      try:
+        new_offset, msg_obj = self.unpackers[ofp_type](message, 0)
+      except Exception:
+        # Malformed body (underrun, failed length assertion, ...).  Treat it
+        # like any other disagreement about the message's length.
+        new_offset, msg_obj = None, None
       if new_offset != message_length:
         info = (msg_obj, message_length, new_offset)
         r = self._error_handler(self.ERR_BAD_LENGTH, info)
